@@ -101,7 +101,7 @@ def stats(trace_path):
     st = {"events": 0, "histories": 0, "worlds": set(), "create_ok": 0, "create_failed": 0, "updates_in_replies": 0,
           "multi_update_replies": 0, "pushed_batches": 0, "update_ok": 0, "update_failed": 0, "stop": 0, "sync": 0, "reconfigure_ok": 0,
           "excl_grants": 0, "isolated_grants": 0, "reserved_grants": 0, "mixed_grants": 0, "preserve_cpu": 0, "preserve_mem": 0,
-          "restarts": 0, "sync_gone": 0, "sync_new": 0, "sync_state_changed": 0, "reconfigure_same": 0, "reconfigure_rejected": 0,
+          "restarts": 0, "restarts_mid": 0, "sync_gone": 0, "sync_new": 0, "sync_state_changed": 0, "reconfigure_same": 0, "reconfigure_rejected": 0,
           "reconfigure_changed": 0, "twin_compared": 0,
           "zone_moves": 0, "balloons_created": 0, "balloons_deleted": 0, "shared_idle": 0, "panics": 0, "probes_ok": 0, "quiescent_points": 0, "states": set(), "boot_errors": 0}
     prev_ctrs = None
@@ -137,6 +137,7 @@ def stats(trace_path):
             st["reconfigure_rejected"] += 1
         if ev == "Restart":
             st["restarts"] += 1
+            st["restarts_mid"] += 1 if e.get("mid") else 0
         if "tw" in e:
             st["twin_compared"] += 1
         if ev == "Sync" and prev_ctrs is not None:
@@ -196,7 +197,7 @@ NEED = {
     "C09": ["quiescent_points", "create_failed", "stop"],
     "C12": ["preserve_cpu", "preserve_mem", "updates_in_replies"],
     "C14": ["probes_ok", "create_failed"],
-    "C11": ["restarts", "sync", "create_ok", "sync_gone", "sync_new", "sync_state_changed"],
+    "C11": ["restarts", "restarts_mid", "sync", "create_ok", "sync_gone", "sync_new", "sync_state_changed"],
     "C13": ["reconfigure_ok", "reconfigure_same", "reconfigure_rejected", "reconfigure_changed", "twin_compared"],
 }
 
